@@ -5,6 +5,7 @@ package c13
 
 import (
 	"bytes"
+	"context"
 	"encoding/json"
 	"fmt"
 	"strings"
@@ -256,19 +257,19 @@ func checkAmmo(c AmmoCase, o *vf.Obs) error {
 	} else {
 		note("input", fmt.Sprintf("%q ... (%d bytes)", c.Data[:512], len(c.Data)))
 	}
-	if c.Mode == "bytes" {
+	{
 		if probe, ok := canary(c.Data); ok {
-			pc := c
+			pc := AmmoCase{Format: c.Format, Mode: "bytes", Origin: c.Origin, Preload: c.Preload, Limit: c.Limit, Passes: c.Passes, ContinueOnError: c.ContinueOnError}
 			pc.Data = probe
-			if err := judge(note, len(probe), smallCeiling, func() error { return ammoBody(pc, nil) }); err != nil {
+			if err := judge(note, len(probe), smallCeiling, func() error { return boundedFor(outerDeadline, "ammo provider", func(context.Context) error { return ammoBody(pc, nil) }) }); err != nil {
 				if v, ok := err.(*violation); ok {
-					v.msg = "with every number of >= 10 digits replaced by 1073741824: " + v.msg
+					v.msg = "with every number of >= 9 digits replaced by " + canaryBytes + ": " + v.msg
 				}
 				return err
 			}
 		}
 	}
-	return judge(note, len(c.Data), smallCeiling, func() error { return ammoBody(c, o) })
+	return judge(note, len(c.Data), smallCeiling, func() error { return boundedFor(outerDeadline, "ammo provider", func(context.Context) error { return ammoBody(c, o) }) })
 }
 
 var extraOK = map[string]bool{"Content-Length": true}
